@@ -69,6 +69,28 @@ def rkey(r):
     return tuple(r.getrandbits(64) for _ in range(4))
 
 
+def carry_lane(r, n):
+    """a v0 lane tailored to the pending length n that will be injected at finalisation
+    (`v0 += (n << 32) + n`, per 64-bit lane): low half within n of 2^32 (carry into the high half) and high
+    half at 2^32 - 1 - n (the carry then ripples out of the lane) - the places where a half-wise or
+    32-bit-lane re-implementation of the addition differs from the 64-bit one"""
+    hi = ((0xFFFFFFFF - n + r.choice((-1, 0, 0, 0, 1))) & 0xFFFFFFFF) if r.random() < 0.7 else r.getrandbits(32)
+    lo = (0x100000000 - n + r.choice((-1, 0, 0, 1, max(n - 1, 0)))) & 0xFFFFFFFF
+    return (hi << 32) | lo
+
+
+def carry_key(r, n):
+    """key whose initial v0 = init0 ^ key holds `carry_lane` values (relevant for streams shorter than one packet)"""
+    return tuple((INIT0[i] ^ carry_lane(r, n)) if r.random() < 0.7 else r.getrandbits(64) for i in range(4))
+
+
+def key_for(r, n):
+    """key for a stream of n bytes in total: length-tailored carry keys for sub-packet streams, else `rkey`"""
+    if 0 < n < 32 and r.random() < 0.35:
+        return carry_key(r, n)
+    return rkey(r)
+
+
 def edge_lanes(r):
     """16 state lanes for a synthetic checkpoint: a mixture of boundary values and random ones"""
     return b"".join((edge64(r) if r.random() < 0.6 else r.getrandbits(64)).to_bytes(8, "little") for _ in range(16))
@@ -311,11 +333,17 @@ def malformed(r, sels, count=None, force=False):
     bufb = rbytes(r, 32)
     if count is None:
         count = r.choice(COUNTS) if r.random() < 0.8 else r.getrandbits(32)
+    suffix = rbytes(r, r.choice((0, 1, 7, 31, 32, 33, 64, 70)))
+    if count < 32 and r.random() < 0.3:
+        # v0 lanes tailored to the pending length that will be injected (restored count + suffix, if that stays below a packet)
+        if count + len(suffix) >= 32:
+            suffix = suffix[:r.randrange(0, 32 - count)]
+        n_fin = count + len(suffix)
+        lanes = b"".join(carry_lane(r, n_fin).to_bytes(8, "little") for _ in range(4)) + lanes[32:]
     c = lanes + bufb + count.to_bytes(4, "little")
     b = B("malformed", [f"count={'<32' if count < 32 else count if count < 35 else 'big'}"])
     rs = "frestore" if force else "restore"
     rsh = "frestoreh" if force else "restoreh"
-    suffix = rbytes(r, r.choice((0, 1, 7, 31, 32, 33, 64, 70)))
     parts = split_chunks(r, suffix, r.randrange(0, 4))
     w = r.choice((64, 128, 256))
     fins = []
